@@ -113,8 +113,11 @@ def run_corpora(pid):
         if os.path.exists(mp) and json.load(open(mp)).get("property") == pid:
             jobs.append(("seeded", d, os.path.join(sd, d, "patch.diff")))
     rd = os.path.join(V, "refactors")
+    # refactorings that were aimed at this property's code (tools/evalrefactor.py --rerun runs the whole corpus
+    # against every property; here the per-property slice keeps the thorough tier within minutes)
+    suffix = "-c%s" % pid[1:].lower()
     for d in sorted(os.listdir(rd)) if os.path.isdir(rd) else []:
-        if os.path.exists(os.path.join(rd, d, "patch.diff")):
+        if d.endswith(suffix) and os.path.exists(os.path.join(rd, d, "patch.diff")):
             jobs.append(("refactors", d, os.path.join(rd, d, "patch.diff")))
 
     def one(job):
